@@ -18,6 +18,16 @@ DEV_TYPE = "urn:schemas-upnp-org:device:Dummy:2"
 SVC_TYPES = ["urn:schemas-upnp-org:service:DummyService:1"]
 
 
+
+def _safe(fn, *a):
+    """an oracle call made by the harness itself (not by the code under test) must not abort the run: an
+    exception reads as "no answer"; if the code under test meets the same exception it is observed there"""
+    try:
+        return fn(*a)
+    except Exception:  # noqa: BLE001
+        return None
+
+
 def make_server_device():
     from async_upnp_client.const import DeviceInfo, ServiceInfo
     from async_upnp_client.server import UpnpServerDevice, UpnpServerService
@@ -243,7 +253,56 @@ class Plugin:
                 data = bytearray(rng.choice([b"", b"\n", b"NOTIFY", b"GET / HTTP/1.1\r\n\r\n", b"HTTP/1.1 200 OK", bytes(data[:17])]))
         return list(data)
 
+    def _known_device_case(self, rng, n):
+        """A device becomes known through a valid sighting; then related datagrams for the same USN arrive at the
+        combined listener with one header removed, emptied or replaced (byebye without NT, alive with a LOCATION
+        that cannot be parsed, ...).  Targets the clauses 'dropped leaves the known devices unchanged' and
+        'never raises' on the paths only a known device reaches (location_changed, headers comparison)."""
+        u = rng.choice(["uuid:dev-1", "uuid:dev-3", "uuid:Dev-9"])
+        ty = rng.choice(["upnp:rootdevice", DEV_TYPE, u])
+        usn = u if ty == u else u + "::" + ty
+        loc = rng.choice(["http://192.168.1.10:80/desc.xml", "http://[fe80::2]:8080/d.xml", "http://10.0.0.7/x"])
+        alive = ("NOTIFY * HTTP/1.1", [["HOST", "239.255.255.250:1900"], ["CACHE-CONTROL", "max-age=1800"], ["LOCATION", loc],
+                                       ["NT", ty], ["NTS", "ssdp:alive"], ["SERVER", "s/1"], ["USN", usn], ["BOOTID.UPNP.ORG", "1"]])
+        resp = ("HTTP/1.1 200 OK", [["CACHE-CONTROL", "max-age=1800"], ["EXT", ""], ["LOCATION", loc], ["ST", ty], ["USN", usn],
+                                    ["BOOTID.UPNP.ORG", "1"]])
+        byebye = ("NOTIFY * HTTP/1.1", [["HOST", "239.255.255.250:1900"], ["NT", ty], ["NTS", "ssdp:byebye"], ["USN", usn]])
+        a = rng.choice(ADDRS)
+        t = 0
+        first = rng.choice([alive, resp])
+        steps = [["EListenerAdv" if first is alive else "EListenerSrch", list(self._build(*first)), a, t]]
+        for _ in range(n):
+            t += rng.choice([0, 1, 1, 3, 10, 100])
+            start, hs = rng.choice([alive, resp, byebye, byebye])
+            hs = [list(h) for h in hs]
+            k = rng.randrange(9)
+            names = [h[0] for h in hs]
+            if k == 0 and hs:
+                hs.pop(rng.randrange(len(hs)))                                  # drop any header
+            elif k == 1:
+                victim = rng.choice([x for x in ("NT", "ST", "NTS", "USN", "LOCATION") if x in names] or names)
+                hs = [h for h in hs if h[0] != victim]
+            elif k == 2:
+                victim = rng.choice([x for x in ("NT", "ST", "NTS", "USN", "LOCATION") if x in names] or names)
+                hs = [[h[0], ""] if h[0] == victim else h for h in hs]           # present but empty
+            elif k == 3:
+                hs = [h for h in hs if h[0] != "LOCATION"] + [["LOCATION", rng.choice(LOC_VALUES + ["http://[fe80::9/desc.xml", "http://192.168.1.77/new.xml", "http://[fe80::5]:80/n"])]]
+            elif k == 4:
+                hs = [h for h in hs if h[0] != "CACHE-CONTROL"] + [["CACHE-CONTROL", rng.choice(CC_VALUES)]]
+            elif k == 5:
+                hs = [[h[0], rng.choice(["2", "x", ""])] if h[0] == "BOOTID.UPNP.ORG" else h for h in hs] + [["CONFIGID.UPNP.ORG", "7"]]
+            elif k == 6:
+                hs = [[h[0].lower() if rng.random() < 0.5 else h[0].title(), h[1]] for h in hs]
+            # k in (7, 8): unmodified
+            ep = "EListenerSrch" if start.startswith("HTTP") else "EListenerAdv"
+            if rng.random() < 0.1:
+                ep = rng.choice(["EListenerAdv", "EListenerSrch"])
+            steps.append([ep, list(self._build(start, hs)), a if rng.random() < 0.8 else rng.choice(ADDRS), t])
+        return {"steps": steps}
+
     def _case(self, rng, n):
+        if rng.random() < 0.4:
+            return self._known_device_case(rng, n)
         steps = []
         t = 0
         for _ in range(n):
@@ -295,7 +354,7 @@ class Plugin:
         finally:
             w.loop.close()
             asyncio.set_event_loop(None)
-        return {"steps": obs, "urls": urls, "ipver": {l: ip_version_from_location(l) for l in sorted(locs)}}
+        return {"steps": obs, "urls": urls, "ipver": {l: _safe(ip_version_from_location, l) for l in sorted(locs)}}
 
     # ------------------------------------------------------------------ printers
     def to_coq(self, case, obs):
